@@ -10,5 +10,6 @@ INVARIANT TypeOK
 INVARIANT TextNeverFails
 INVARIANT SetDefinition
 INVARIANT OrderShields
+INVARIANT MissingMatchesNothing
 INVARIANT EmitCase
 CHECK_DEADLOCK FALSE
